@@ -91,15 +91,53 @@ def _topo(name):
     raise KeyError(name)
 
 
-BENCH_EQPT = {'meshV2': 'ex', 'meshV2+island': 'ex', 'testTopology': 'td', 'CORONET': 'ex'}
+class _BenchEqpt(dict):
+    def __getitem__(self, bench):
+        return dict.__getitem__(self, bench.split('@')[0])
+
+
+BENCH_EQPT = _BenchEqpt({'meshV2': 'ex', 'meshV2+island': 'ex', 'testTopology': 'td', 'CORONET': 'ex'})
+
+# process-wide simulation parameters a bench runs under: 'bench@sim'.  '' = the defaults (analytic GN model);
+# the GGN variants evaluate the NLI on a few channels spread over the propagated comb and interpolate
+SIMS = {'': {},
+        'ggn': {'nli_params': {'method': 'ggn_approx', 'dispersion_tolerance': 1, 'phase_shift_tolerance': 0.1,
+                               'computed_number_of_channels': 4}},
+        'ggnss': {'nli_params': {'method': 'ggn_spectrally_separated', 'dispersion_tolerance': 4,
+                                 'phase_shift_tolerance': 0.1, 'computed_number_of_channels': 3}}}
+
+
+def split_bench(bench):
+    base, _, sim = bench.partition('@')
+    return base, sim
+
+
+def set_sim(sim):
+    from gnpy.core.parameters import SimParams
+    SimParams.set_params(copy.deepcopy(SIMS[sim]))
+
+
+def sim_digest():
+    """the process-wide SimParams projected to one integer per parameter group"""
+    from gnpy.core.parameters import SimParams
+    s = SimParams()
+    out = []
+    for grp in (s.nli_params, s.raman_params):
+        try:
+            out.append(crc(grp.to_json()))
+        except Exception:                                           # noqa
+            out.append(crc({k: repr(v) for k, v in vars(grp).items()}))
+    return out
 
 
 def fresh_network(bench):
-    """a freshly loaded and designed network (never shared between two planning runs)"""
+    """a freshly loaded and designed network (never shared between two planning runs), under freshly set SimParams"""
     from gnpy.tools.json_io import network_from_json
     from gnpy.tools.worker_utils import designed_network
+    base, sim = split_bench(bench)
+    set_sim(sim)
     eq = bench_equipment(BENCH_EQPT[bench])
-    net = network_from_json(copy.deepcopy(_topo(bench)), eq)
+    net = network_from_json(copy.deepcopy(_topo(base)), eq)
     net, _, _ = designed_network(eq, net)
     return net, eq
 
@@ -150,7 +188,7 @@ TRX = {'meshV2+island': [('Voyager', 'mode 1', 50e9), ('Voyager', None, 75e9), (
 def include_candidates(bench):
     """every ROADM / amplifier / fused node the topology file names (both directions of every link): an include list
     drawn from them is satisfiable, unsatisfiable (wrong direction, impossible order) or explicit, as it comes"""
-    return [e['uid'] for e in _topo(bench)['elements'] if e['type'] in ('Roadm', 'Edfa', 'Fused')]
+    return [e['uid'] for e in _topo(split_bench(bench)[0])['elements'] if e['type'] in ('Roadm', 'Edfa', 'Fused')]
 
 
 def variants(base, rng=None):
@@ -195,14 +233,43 @@ def near_identical(bench):
         bases = [rq('A', 'a', 'g', typ='Voyager', mode='mode 1', tx_power=1e-4, power=1e-3, bw=200e9),
                  rq('B', 'a', 'h', route=['roadm g', 'roadm a', 'roadm g'], bw=100e9),
                  rq('C', 'f', 'b', route=['roadm c'], mode=None, spacing=75e9, bidir=True, bw=300e9)]
-    return [(f'near-identical-{b["request-id"]}', loadable(bench, [b] + variants(b))) for b in bases]
+    out = [(f'near-identical-{b["request-id"]}', loadable(bench, [b] + variants(b))) for b in bases]
+    if split_bench(bench)[1]:
+        # GGN models need the roll-off of the propagated mode; the reverse propagation of an automatic-mode request
+        # has none (TypeError in _generalized_psi, alone as well as in a batch: not an independence matter) - left out
+        out = [(n, [r for r in reqs if not (r['bidirectional'] and r['path-constraints']['te-bandwidth']['trx_mode'] is None)])
+               for n, reqs in out]
+    return out
+
+
+def sync_batches(bench):
+    """batches whose requests are tied by synchronization vectors with several feasible disjoint combinations: two
+    requests with the same ends, two with a common source, a chain of two vectors.  The vectors list the requests in
+    one fixed order, whatever the order of the path-request list"""
+    def vec(sid, ids):
+        return {'synchronization-id': sid, 'svec': {'relaxable': False, 'disjointness': 'node link',
+                                                    'request-id-number': list(ids)}}
+    if split_bench(bench)[0].startswith('meshV2'):
+        a, b, c, d = 'Lannion_CAS', 'Lorient_KMA', 'Brest_KLA', 'Rennes_STA'
+    else:
+        a, b, c, d = 'a', 'g', 'f', 'b'
+    return [
+        ('sync-same-ends', {'path-request': [rq('r1', a, b), rq('r2', a, b)], 'synchronization': [vec('s', ['r1', 'r2'])]}),
+        ('sync-common-source', {'path-request': [rq('r1', c, b, bw=200e9), rq('r2', c, d, mode=None, spacing=75e9)],
+                                'synchronization': [vec('s', ['r1', 'r2'])]}),
+        ('sync-chain', {'path-request': [rq('r1', a, b), rq('r2', c, d, bidir=True), rq('r3', a, d), rq('r4', a, d)],
+                        'synchronization': [vec('s1', ['r1', 'r2']), vec('s2', ['r3', 'r2'])]}),
+        ('sync-two-vectors', {'path-request': [rq('r1', a, b), rq('r2', a, d, bidir=True), rq('r3', c, d), rq('r4', a, d)],
+                              'synchronization': [vec('s1', ['r1', 'r2']), vec('s2', ['r3', 'r4'])]}),
+    ]
 
 
 def random_batch(rng, bench, tag, n):
     """seeded batch: every transponder situation of the bench library, free / fixed / multi / insufficient slots,
     uni- and bidirectional, loose / strict include lists over every node of the topology file, identical copies to be
     aggregated and one-attribute variants of earlier requests that must NOT be"""
-    sites, trx = SITES[bench], TRX[bench]
+    base_bench = split_bench(bench)[0]
+    sites, trx = SITES[base_bench], TRX[base_bench]
     inc = include_candidates(bench)
     out = []
     for i in range(n):
@@ -217,7 +284,7 @@ def random_batch(rng, bench, tag, n):
             r['path-constraints']['te-bandwidth']['path_bandwidth'] = rng.choice([100e9, 200e9, 400e9])
             out.append(r)
             continue
-        s, d = rng.sample(sites + (['Island'] if bench.endswith('island') and rng.random() < 0.1 else []), 2)
+        s, d = rng.sample(sites + (['Island'] if base_bench.endswith('island') and rng.random() < 0.1 else []), 2)
         typ, mode, spacing = rng.choice(trx)
         pcm = int(-(-spacing // 12.5e9))
         n0 = rng.randrange(-200, 300, 4)
@@ -495,33 +562,89 @@ class Run:
     """everything observed about one planning() call"""
 
 
-def run_batch(bench, data, name, want_csv=True):
-    """planning() on a fresh network, recorded.  Returns a Run with:
-       inputs, entries (per response entry: outcome `o` assembled from the captures, projected response entry `e`,
-       CSV row `row`), netB/netA digests, response (raw), exc"""
+def api_requests(data, eq):
+    """the batch built through the API: PathRequest(**params) with the loader's resolved values, optional keys the
+    user did not give (no include list -> no nodes_list / loose_list) left to the class defaults"""
+    from gnpy.tools.json_io import requests_from_json
+    from gnpy.topology.request import PathRequest
+    out = []
+    for q in requests_from_json(copy.deepcopy(data), eq):
+        params = dict(request_id=q.request_id, source=q.source, destination=q.destination, bidir=q.bidir,
+                      trx_type=q.tsp, trx_mode=q.tsp_mode, format=q.format, baud_rate=q.baud_rate, bit_rate=q.bit_rate,
+                      roll_off=q.roll_off, OSNR=q.OSNR, penalties=q.penalties, path_bandwidth=q.path_bandwidth,
+                      f_min=q.f_min, f_max=q.f_max, spacing=q.spacing, min_spacing=q.min_spacing, cost=q.cost,
+                      nb_channel=q.nb_channel, power=q.power, equalization_offset_db=q.offset_db, tx_power=q.tx_power,
+                      tx_osnr=q.tx_osnr,
+                      effective_freq_slot=[{'N': n, 'M': m} for n, m in zip(q.N, q.M)] if hasattr(q, 'N') else None)
+        if q.nodes_list:
+            params.update(nodes_list=list(q.nodes_list), loose_list=list(q.loose_list))
+        out.append(PathRequest(**params))
+    return out
+
+
+def planning_api(network, eq, data):
+    """the steps of worker_utils.planning() on requests built through the API (module attributes looked up at call
+    time, so recorders and in-process mutants apply)"""
+    import gnpy.tools.worker_utils as W
+    oms_list = W.build_oms_list(network, eq)
+    rqs = api_requests(data, eq)
+    W.check_request_path_ids(rqs)
+    rqs = W.correct_json_route_list(network, rqs)
+    dsjn = W.deduplicate_disjunctions(W.disjunctions_from_json(data))
+    rqs, dsjn = W.requests_aggregation(rqs, dsjn)
+    pths = W.compute_path_dsjctn(network, eq, rqs, dsjn)
+    ppths, rpths, rppths = W.compute_path_with_disjunction(network, eq, rqs, pths)
+    W.pth_assign_spectrum(pths, rqs, oms_list, rpths)
+    result = [W.ResultElement(rq_, p, rp) for rq_, p, rp in zip(rqs, ppths, rppths)]
+    return oms_list, ppths, rppths, rqs, dsjn, result
+
+
+REFUSALS = ('ServiceError', 'DisjunctionError')       # the code's legitimate "I will not compute this batch"
+
+
+def run_batch(bench, data, name, want_csv=True, via='json'):
+    """planning() on a fresh network under freshly set SimParams, recorded.  via='api': same steps, requests built with
+    PathRequest(**params).  Returns a Run with: inputs, entries (per response entry: outcome `o` assembled from the
+    captures, projected response entry `e`, CSV row `row`), netB/netA and simB/simA digests, response (raw), exc"""
     from gnpy.tools.worker_utils import planning
     from gnpy.tools.json_io import results_to_json
     from gnpy.tools.cli_examples import _path_result_json
+    try:
+        return _run_batch(bench, data, name, want_csv, via, planning, results_to_json, _path_result_json)
+    finally:
+        set_sim('')
+
+
+def _run_batch(bench, data, name, want_csv, via, planning, results_to_json, _path_result_json):
     net, eq = fresh_network(bench)
     run = Run()
     run.name, run.bench, run.data = name, bench, data
     run.inputs = input_table(data, eq)
+    set_sim(split_bench(bench)[1])              # input_table / design must not be what is observed
     run.netB, run.net_uids = net_digest(net)
+    run.simB = sim_digest()
     run.exc = None
+    run.refused = False
     rec = PlanRecorder()
     try:
         with rec:
-            _, _, _, rqs, _, result = planning(net, eq, copy.deepcopy(data))
+            if via == 'api':
+                _, _, _, rqs, _, result = planning_api(net, eq, copy.deepcopy(data))
+            else:
+                _, _, _, rqs, _, result = planning(net, eq, copy.deepcopy(data))
         response = results_to_json(result)
         response2 = _path_result_json(result)
     except Exception as ex:                                           # noqa: an exception here is reported by the caller
         import traceback
         run.exc = f'{type(ex).__name__}: {ex}'
+        run.refused = type(ex).__name__ in REFUSALS
         run.tb = traceback.format_exc()
         run.netA, _ = net_digest(net)
+        run.simA = sim_digest()
         run.entries = []
         return run
     run.netA, _ = net_digest(net)
+    run.simA = sim_digest()
     run.response = response
     run.same_writer = response == response2
     run.csv_exc = None
@@ -582,7 +705,7 @@ EMPTY_ROW = dict(idstr='', src='', dst='', bw=NONE, passf='', nbtsp=NONE, cost=N
                  thr=NONE, baud=NONE, power=NONE, path=[], nm=[], m={k: NONE for k in CSV_METRIC}, rev=dict(NO_REV))
 NO_CORE = dict(found=False, reason='', route=[], mode='', metric=dict(NO_M), hasZA=False, za=dict(NO_M),
                rx=dict(NO_RX), rxRev=dict(NO_RX), nm=[])
-NO_C16 = dict(has=False, exp='', cur=NO_CORE, solo=NO_CORE, unit=0)
+NO_C16 = dict(has=False, exp='', cur=NO_CORE, solo=NO_CORE, unit=0, hasRef=False, ref=NO_CORE)
 
 
 def core_of(ent):
@@ -601,10 +724,10 @@ def trace_of(run, c16=None, j19=True):
                  c16=dict(NO_C16))
         if c16 and c16.get(i):
             x['c16'] = dict(has=True, exp=c16[i].get('exp', ''), cur=core_of(ent), solo=c16[i]['solo'] or NO_CORE,
-                            unit=c16[i]['unit'])
+                            unit=c16[i]['unit'], hasRef='ref' in c16[i], ref=c16[i].get('ref') or NO_CORE)
         ents.append(x)
     return dict(name=run.name, j16=bool(c16), j19=bool(j19), inputs=run.inputs, ent=ents, nrows=run.nrows,
-                netB=run.netB, netA=run.netA)
+                netB=run.netB, netA=run.netA, simB=run.simB, simA=run.simA)
 
 
 def judge(traces, chk, tag):
